@@ -203,7 +203,24 @@ def reader_facts(ctx):
     flagf = ctx.fn("SVGLexicalParser._flag", "R09.6")
     rf = ReaderLoop(ctx.m, flagf, "R09.6")
     of = rf.outcomes.get("FLAG")
-    conv = [1] if (of is not None and of.kind == "return" and (group_conv(of.value, rf.mvar, ["bool", "int"]) or group_conv(of.value, rf.mvar, ["int"]))) else []
+    ofv = of.value if of is not None else None
+    # a local bound once to <match>.group() stands for it (digit = token.group(); return bool(int(digit)))
+    if ofv is not None:
+        temps = {}
+        for st_ in ast.walk(flagf):
+            if isinstance(st_, ast.Assign) and len(st_.targets) == 1 and isinstance(st_.targets[0], ast.Name):
+                temps.setdefault(st_.targets[0].id, []).append(st_.value)
+
+        class _T(ast.NodeTransformer):
+            def visit_Name(self, n):
+                v = temps.get(n.id)
+                if isinstance(n.ctx, ast.Load) and v and len(v) == 1 and isinstance(v[0], ast.Call) and isinstance(v[0].func, ast.Attribute) and v[0].func.attr == "group":
+                    return v[0]
+                return n
+
+        from ..model import fresh as _fresh
+        ofv = _T().visit(_fresh(ofv))
+    conv = [1] if (of is not None and of.kind == "return" and (group_conv(ofv, rf.mvar, ["bool", "int"]) or group_conv(ofv, rf.mvar, ["int"]))) else []
     ok, w = rx.included(rx.Lang(flag["FLAG"]), rx.Lang(r"[-+]?[0-9]+"))
     ctx.ob("R09.6", "int(FLAG token)", ok and len(conv) == 1, "counterexample %r" % w if not ok else "", flagf.lineno, "the flag token admits a spelling int() rejects")
     ok, w = rx.equivalent(rx.Lang(flag["FLAG"]), rx.Lang("[01]"))
